@@ -186,6 +186,16 @@ theorem initializer_graceful (τ : Ty) (s : Src) (h : FromParser s) : Graceful (
     rw [hbs]; exact graceful_ok bs
   · rw [he]; exact graceful_diag
 
+theorem initializerAny_graceful (t : PackTy) (s : Src) (h : FromParser s) :
+    Graceful (do let x ← elaborate s; let v ← eval x; packAny t v) := by
+  rcases elaborate_graceful s h with ⟨x, hx, hu⟩ | he
+  · rw [hx]
+    simp only [bind_ok]
+    refine graceful_bind (eval_graceful _ hu) fun v => ?_
+    obtain ⟨bs, hbs⟩ := packAny_total t v
+    rw [hbs]; exact graceful_ok bs
+  · rw [he]; exact graceful_diag
+
 theorem caseLabel_graceful (ctl : Ty) (s : Src) (h : FromParser s) : Graceful (caseLabel ctl s) := by
   unfold caseLabel
   rcases elaborate_graceful s h with ⟨t, ht, hu⟩ | he
